@@ -123,3 +123,83 @@ Fixpoint open_end (s : list N) : option bool :=   (* Some pending  = unterminate
       else if c =? 92 then match r with [] => Some true | _ :: r' => open_end r' end
       else open_end r
   end.
+
+(* ---- advance_string_validate (flags & MASK_VALIDATE_STRING, i.e. ConfigStd / ValidateString) ----------------
+   Same rounds; every vector round also rejects control characters (< 0x20) that occur before the closing quote,
+   but does NOT look at escape sequences; only the scalar tail validates them (advance_escape_validate: one of
+   the eight single-character escapes, or `u` + 4 hex digits - the surrogate-pair shortcut consumes the same
+   bytes the next iteration would). There is no uninitialised variable here: the tail ends in `return -ERR_EOF`. *)
+
+Inductive sres := SOk (r : list N) | SEof | SInval.
+
+Definition is_cchar (c : N) : bool := c <? 32.
+
+Inductive vblock_res := VQuote (after : list N) | VCtl | VNone (cr : bool).
+
+Definition block_scan_v (cr : bool) (blk : list N) : vblock_res :=
+  match block_scan cr blk with
+  | BQuote after =>
+      (* qp = index of the quote, np = index of the first control character:  if (np < qp) -ERR_INVAL *)
+      if existsb is_cchar (firstn (length blk - S (length after)) blk) then VCtl else VQuote after
+  | BNone cr' => if existsb is_cchar blk then VCtl else VNone cr'
+  end.
+
+Fixpoint rounds64_v (fuel : nat) (cr : bool) (s : list N) : sres + (bool * list N) :=
+  match fuel with
+  | O => inr (cr, s)
+  | S f =>
+      match split_at 64 s with
+      | None => inr (cr, s)
+      | Some (blk, rest) =>
+          match block_scan_v cr blk with
+          | VQuote after => inl (SOk (after ++ rest))
+          | VCtl => inl SInval
+          | VNone cr' => rounds64_v f cr' rest
+          end
+      end
+  end.
+
+(* /* handle the remaining bytes with scalar code */ + advance_escape_validate *)
+Fixpoint string_tail_v (s : list N) : sres :=
+  match s with
+  | [] => SEof
+  | c :: r =>
+      if c =? 34 then SOk r
+      else if c =? 92 then
+        match r with
+        | [] => SEof                                               (* if (nb == 1) return -ERR_EOF *)
+        | e :: r2 =>
+            if simple_escape e then string_tail_v r2
+            else if e =? 117 then
+              match r2 with
+              | h1 :: h2 :: h3 :: h4 :: r6 =>
+                  if is_hex h1 && is_hex h2 && is_hex h3 && is_hex h4 then string_tail_v r6 else SInval
+              | _ => SEof                                          (* if (nb < 5) return -ERR_EOF *)
+              end
+            else SInval
+        end
+      else if is_cchar c then SInval
+      else string_tail_v r
+  end.
+
+Definition carry_tail_v (cr : bool) (s : list N) : sres :=
+  if cr then match s with [] => SEof | _ :: s' => string_tail_v s' end else string_tail_v s.
+
+Definition advance_string_validate (fuel : nat) (s : list N) : sres :=
+  match s with
+  | [] => SEof
+  | _ =>
+      match rounds64_v fuel false s with
+      | inl r => r
+      | inr (cr, s1) =>
+          match split_at 32 s1 with
+          | None => carry_tail_v cr s1
+          | Some (blk, rest) =>
+              match block_scan_v cr blk with
+              | VQuote after => SOk (after ++ rest)
+              | VCtl => SInval
+              | VNone cr' => carry_tail_v cr' rest
+              end
+          end
+      end
+  end.
